@@ -62,6 +62,11 @@ func sharedSchema() *jsonapi.Schema {
 	must(s.AddType(typ))
 	must(s.AddType(*softType("t2", docFields["t2"], kindMap{})))
 	must(s.AddType(*softType("t3", defMap{"c": {Kind: "attr", K: "bytes", Null: true}}, kindMap{})))
+	// a type declared the short way: AddType(Type{Name}) then AddAttr leaves its Rels map nil
+	must(s.AddType(jsonapi.Type{Name: "t4"}))
+	must(s.AddAttr("t4", jsonapi.Attr{Name: "d", Type: jsonapi.AttrTypeString}))
+	// and one without any field: both maps nil
+	must(s.AddType(jsonapi.Type{Name: "t5"}))
 	return s
 }
 
@@ -124,7 +129,8 @@ func sharedOp(s *jsonapi.Schema, op string, p int) {
 		_ = u.String()
 	case "UnmarshalDocument":
 		pl := `{"data":[{"type":"t1","id":"` + id + `","attributes":{"a":"x","n":3},"relationships":{"o":{"data":{"type":"t2","id":"u"}},"m":{"data":[{"type":"t2","id":"v"}]}}}],` +
-			`"included":[{"type":"t2","id":"u","attributes":{"b":"y"}},{"type":"t3","id":"w","attributes":{"c":null}}]}`
+			`"included":[{"type":"t2","id":"u","attributes":{"b":"y"}},{"type":"t3","id":"w","attributes":{"c":null}},` +
+			`{"type":"t4","id":"q","attributes":{"d":"z"}},{"type":"t5","id":"e"}]}`
 		_, err := jsonapi.UnmarshalDocument([]byte(pl), s)
 		must(err)
 	case "UnmarshalPartial":
@@ -135,8 +141,12 @@ func sharedOp(s *jsonapi.Schema, op string, p int) {
 		pl = `{"type":"t1","id":"` + id + `","attributes":{"n":null}}`
 		_, err = jsonapi.UnmarshalPartialResource([]byte(pl), s)
 		must(err)
+		pl = `{"type":"t4","id":"` + id + `","attributes":{"d":"v"}}`
+		r4, err := jsonapi.UnmarshalResource([]byte(pl), s)
+		must(err)
+		_ = r4.Get("d")
 	case "NewResource":
-		for _, name := range []string{"t1", "t2", "t3"} {
+		for _, name := range []string{"t1", "t2", "t3", "t4", "t5"} {
 			typ := s.GetType(name)
 			r := typ.New()
 			r.Set("id", id)
@@ -239,12 +249,10 @@ func sharedChild(path string) {
 	must(err)
 	var scheds [][]hStep
 	must(json.Unmarshal(b, &scheds))
-	s := sharedSchema()
-	// warm up sequentially so that lazily initialised runtime state is not reported
-	for _, op := range sharedOps {
-		sharedOp(s, op, 0)
-	}
 	for i, sc := range scheds {
+		// a freshly built schema for every schedule: writes that only happen on first use
+		// (lazily created maps, caches) must meet the concurrent operations of the schedule
+		s := sharedSchema()
 		fmt.Fprintf(os.Stderr, "\nSCHED %d\n", i)
 		before := schemaSnapshot(s)
 		replaySched(s, sc)
